@@ -46,8 +46,9 @@ def main():
                                  "first_lines": [l[:300] for l in lines[:4]], "wall_s": round(time.time() - t0, 1)}
         out = os.path.join(verif, "seeded", sid)
         os.makedirs(out, exist_ok=True)
-        shutil.copy(os.path.join(src, "patch.diff"), out)
-        shutil.copy(os.path.join(src, "demo.py"), out)
+        if os.path.realpath(src) != os.path.realpath(out):
+            shutil.copy(os.path.join(src, "patch.diff"), out)
+            shutil.copy(os.path.join(src, "demo.py"), out)
         descf = os.path.join(verif, "seeded", "descriptions.json")
         if os.path.exists(descf):
             dsc = json.load(open(descf)).get(sid, {})
